@@ -351,7 +351,15 @@ class IOPort(BaseIOPort):
         self.output.send(message)
 
     def _receive(self, block=True):
-        return self.input.receive(block=block)
+        try:
+            return self.input.receive(block=block)
+        except (OSError, ValueError):
+            if self.input.closed:
+                # The input port has closed (for example a socket port
+                # whose peer has disconnected), and so has this port.
+                # This lets iteration end instead of raising.
+                self.close()
+            raise
 
 
 class EchoPort(BaseIOPort):
